@@ -1,6 +1,6 @@
 ---- MODULE MC_Deployment_redeploy ----
 EXTENDS Deployment, Json
-\* Instance `redeploy-race` of Deployment.tla with Fixes = [] (written by harness/vh/props/C26.py:mc_files; the driver generates
+\* Instance `redeploy-race` of Deployment.tla with Fixes = ['A', 'B', 'C', 'D', 'E', 'F'] (the code as repaired in /repo; Fixes = {} reproduces the defect of the code before the repairs; written by harness/vh/props/C26.py:mc_files; the driver generates
 \* one such module per scenario at run time).  Run: tlc -deadlock -config MC_Deployment_redeploy.cfg MC_Deployment_redeploy.tla ; GenNext = per-transition emission.
 MCDeps == {"a"}
 MCWraps == [d \in MCDeps |-> CASE d = "a" -> "-"]
@@ -9,7 +9,7 @@ MCLazy == {}
 MCFails == {}
 MCInstant == {}
 MCChoices == << {<<"deploy", "a">>}, {<<"undeploy", "a">>}, {<<"deploy", "a">>}, {<<"deploy", "a">>} >>
-MCFixes == {}
+MCFixes == {"A", "B", "C", "D", "E", "F"}
 Emit(a) == PrintT(ToJson([f |-> S, a |-> a, t |-> S', v |-> ViolSet(S, S')]))
 GenNext == \/ \E r \in Reqs, k \in {"deploy", "undeploy", "uall", "use"}, d \in Names :
                 Start(r, k, d) /\ Emit(<<"Start", ToString(r), k, d>>)
